@@ -12,7 +12,14 @@ pub mod rng;
 use serde_json::Value;
 use std::io::Write;
 
-pub const VERIF_DIR: &str = "/verif";
+/// Where evidence, replays and the known-findings file live: $VERIF_DIR, default /verif
+/// (the check driver exports its own directory, so a snapshot run writes into the snapshot).
+pub fn verif_dir() -> String {
+    match std::env::var("VERIF_DIR") {
+        Ok(s) if !s.is_empty() => s,
+        _ => "/verif".to_string(),
+    }
+}
 pub const DEFAULT_SEED: u64 = 20261001;
 
 /// Exit codes: 0 held, 1 violation, 2 harness error.
@@ -187,7 +194,7 @@ impl ViolationTable {
 }
 
 pub fn load_findings() -> findings::Findings {
-    findings::Findings::load(&format!("{VERIF_DIR}/KNOWN_FINDINGS.txt")).unwrap_or_else(|e| harness_error(&e))
+    findings::Findings::load(&format!("{}/KNOWN_FINDINGS.txt", verif_dir())).unwrap_or_else(|e| harness_error(&e))
 }
 
 /// Run `<current exe> <prop> --replay <path>` in a fresh process; true if it reproduces (exit 1).
